@@ -117,6 +117,7 @@ Definition check (s : sx) : Z :=
                          | Some r => str_in r (vars ++ map fst consts) | None => false end in
           let mo := new_live (kind_reserved kind) (kind_is_vec kind) (kind =? 10) ns sub name help vars consts lvs in
           match impl with
+          | SL [SZ 3] => code_spec_violation   (* the vector stayed blocked after a recovered child-creation panic *)
           | SL [SZ 0] => both (negb card_ok || negb dok || has_res) (match mo with LivePanicLabel => true | _ => false end)
           | SL [SZ 1] => both (negb card_ok) (match mo with LivePanicOther => true | _ => false end)
           | SL [SZ 2; SZ derr; labels] =>
